@@ -1,6 +1,7 @@
 package c15
 
 import (
+	"io"
 	"bytes"
 	"fmt"
 	"sort"
@@ -320,6 +321,89 @@ func runOFF(src *choice.Source, st *Stats) (fs []Finding) {
 		if f := compareTris("off_text", want, got, func(c model3d.Coord3D) model3d.Coord3D { return c }); f != nil {
 			f.Msg = fmt.Sprintf("delivery %+v: %s", d, f.Msg)
 			fs = append(fs, *f)
+		}
+	}
+	if len(fs) > 0 {
+		return
+	}
+	// the streaming reader: polygons of any size come back vertex for vertex, and
+	// a caller that keeps every face until EOF still holds what was in the file
+	npoly := src.Intn(10)
+	polys := make([][]int, npoly)
+	var pb strings.Builder
+	fmt.Fprintf(&pb, "OFF\n%d %d 0\n", np, npoly)
+	for _, p := range pool {
+		fmt.Fprintf(&pb, "%s %s %s\n", g(p.X), g(p.Y), g(p.Z))
+	}
+	for i := range polys {
+		k := 1 + src.Intn(8)
+		fmt.Fprintf(&pb, "%d", k)
+		for j := 0; j < k; j++ {
+			polys[i] = append(polys[i], src.Intn(np))
+			fmt.Fprintf(&pb, " %d", polys[i][j])
+		}
+		if !(i == npoly-1 && src.Chance(1, 4)) {
+			pb.WriteString("\n")
+		}
+	}
+	pdata := []byte(pb.String())
+	st.Files++
+	st.Bytes += int64(len(pdata))
+	for _, d := range deliveries(src, len(pdata)) {
+		r := simio.NewReader(pdata, d)
+		or, err := fileformats.NewOFFReader(r)
+		if err != nil {
+			fs = append(fs, Finding{"off_stream|read-error", fmt.Sprintf("delivery %+v: header: %v; file %q", d, err, trunc(pdata))})
+			continue
+		}
+		if or.NumFaces() != npoly {
+			fs = append(fs, Finding{"off_stream|face-count", fmt.Sprintf("NumFaces() = %d, file declares %d", or.NumFaces(), npoly)})
+			continue
+		}
+		same := func(face [][3]float64, idx []int) bool {
+			if len(face) != len(idx) {
+				return false
+			}
+			for j, v := range face {
+				w := pool[idx[j]]
+				if !sameBits(v[0], w.X) || !sameBits(v[1], w.Y) || !sameBits(v[2], w.Z) {
+					return false
+				}
+			}
+			return true
+		}
+		var kept [][][3]float64
+		ok := true
+		for i := 0; ; i++ {
+			face, err := or.ReadFace()
+			if err == io.EOF {
+				break
+			}
+			if err != nil {
+				fs = append(fs, Finding{"off_stream|read-error", fmt.Sprintf("delivery %+v: face %d of %d: %v; file %q", d, i, npoly, err, trunc(pdata))})
+				ok = false
+				break
+			}
+			if i >= npoly || !same(face, polys[i]) {
+				fs = append(fs, Finding{"off_stream|face", fmt.Sprintf("delivery %+v: face %d read as %v; file %q", d, i, face, trunc(pdata))})
+				ok = false
+				break
+			}
+			kept = append(kept, face)
+		}
+		st.account(r)
+		if !ok {
+			continue
+		}
+		if len(kept) != npoly {
+			fs = append(fs, Finding{"off_stream|face-count", fmt.Sprintf("delivery %+v: %d faces read, file has %d", d, len(kept), npoly)})
+			continue
+		}
+		for i, face := range kept {
+			if !same(face, polys[i]) {
+				fs = append(fs, Finding{"off_stream|retained-face", fmt.Sprintf("delivery %+v: face %d changed after later faces were read: now %v", d, i, face)})
+				break
+			}
 		}
 	}
 	return
